@@ -281,6 +281,15 @@ func init() {
 			ex.putBE(st, a[1].(VSlice), a[2].(VBV).T, 8)
 			return nil
 		},
+		"(encoding/binary.bigEndian).AppendUint32": func(ex *Exec, st *State, cc *ssa.CallCommon, a []Value) []Value {
+			return one(ex.appendBE(st, a[1].(VSlice), a[2].(VBV).T, 4))
+		},
+		"(encoding/binary.bigEndian).AppendUint64": func(ex *Exec, st *State, cc *ssa.CallCommon, a []Value) []Value {
+			return one(ex.appendBE(st, a[1].(VSlice), a[2].(VBV).T, 8))
+		},
+		"(encoding/binary.bigEndian).AppendUint16": func(ex *Exec, st *State, cc *ssa.CallCommon, a []Value) []Value {
+			return one(ex.appendBE(st, a[1].(VSlice), a[2].(VBV).T, 2))
+		},
 		"(encoding/binary.bigEndian).Uint32": func(ex *Exec, st *State, cc *ssa.CallCommon, a []Value) []Value {
 			return one(VBV{ex.getBE(st, a[1].(VSlice), 4), false})
 		},
@@ -624,4 +633,21 @@ func (ex *Exec) paginate(st *State, cc *ssa.CallCommon, a []Value) []Value {
 		res = append(res, ex.havoc(st, sig.Results().At(i).Type(), "paginate"))
 	}
 	return res
+}
+
+// appendBE: binary.BigEndian.AppendUintN(b, v) = append(b, the n big-endian bytes of v...), by definition.
+func (ex *Exec) appendBE(st *State, base VSlice, v *Term, n int) Value {
+	arr := ZeroArr
+	for i := 0; i < n; i++ {
+		hi := 8*(n-i) - 1
+		arr = storeNZ(arr, uint64(i), Extract(hi, hi-7, v))
+	}
+	r := Cat(ex.snapshot(st, base), MkBytes(arr, BV(64, int64(n))))
+	out := ex.sliceOf(st, r, TFalse)
+	cp := Fresh("cap", SBV(64))
+	st.assume(And(BVUge(cp, out.Len), BVUle(cp, BVU(64, 1<<48))))
+	st.assume(BVUle(out.Len, BVU(64, 1<<47)))
+	ex.objs[out.Obj].Size = cp
+	out.Cap = cp
+	return out
 }
